@@ -15,12 +15,13 @@ from __future__ import annotations
 
 import ast
 import copy
+import os
 from typing import Any, Dict, List, Optional, Sequence, Set, Tuple
 
 from . import pyfacts as pf
 from . import sqlfront as sf
 from . import sqlrules as sr
-from .common import AnalysisError
+from .common import AnalysisError, repo_path
 from .sqlast import N, SqlParseError, parse_statements, text
 from .sqleval import UNKNOWN, may
 
@@ -1168,55 +1169,184 @@ class StoreSite:
         self.dbfed = False   # a value read from the database (by whichever invocation executes the store) goes in
 
 
+class _ModInfo:
+    """Per-module facts of one module taking part in the analysis (the module given, plus the modules of the repository it imports
+    helpers from - adopted on demand)."""
+
+    def __init__(self, m: pf.Module):
+        self.m = m
+        self.defs: Dict[str, ast.AST] = {d.name: d for d in pf._body_defs(m.tree)}
+        self.imports: Dict[str, str] = m.imports()
+        self.loads: Dict[str, int] = {}
+        self.attr_refs: Dict[str, int] = {}
+        for n in ast.walk(m.tree):
+            if isinstance(n, ast.Name) and isinstance(n.ctx, ast.Load):
+                self.loads[n.id] = self.loads.get(n.id, 0) + 1
+            elif isinstance(n, ast.Attribute):
+                self.attr_refs[n.attr] = self.attr_refs.get(n.attr, 0) + 1
+        self.names: Dict[str, ast.AST] = {}
+        for st in m.tree.body:
+            if isinstance(st, ast.Assign):
+                for x in st.targets:
+                    if isinstance(x, ast.Name):
+                        self.names[x.id] = st.value
+            elif isinstance(st, ast.AnnAssign) and isinstance(st.target, ast.Name) and st.value is not None:
+                self.names[st.target.id] = st.value
+        self.global_rebound: Set[str] = set()
+
+
 class StatusProvenance:
+    MAX_ADOPTED = 24
+
     def __init__(self, m: pf.Module, converters: Sequence[str] = CONVERTERS):
         self.m = m
         self.converters = tuple(converters)
-        self.funcs = m.functions()
+        self.funcs: List[Tuple[str, FuncDef]] = []
         self.by_name: Dict[str, List[FuncDef]] = {}
-        for q, f in self.funcs:
-            self.by_name.setdefault(f.name, []).append(f)
-        self.qual = {id(f): q for q, f in self.funcs}
+        self.qual: Dict[int, str] = {}
+        self.mods: Dict[str, _ModInfo] = {}
+        self.mod_of: Dict[int, pf.Module] = {}
+        self._by_tree: Dict[int, _ModInfo] = {}
         self.readers: Set[int] = set()
         self.direct: Set[int] = set()
         self.typed_roots: Set[str] = set()
         self.maybe_roots: Set[str] = set()
         self.dbfed_roots: Set[str] = set()   # written, while requests are served, with values read from the database
-        self.status_lines: Set[int] = set()
+        self.status_lines: Set[Any] = set()
         self.stores: List[StoreSite] = []
         self.root_class: Dict[str, ast.ClassDef] = {}
-        self._module_names: Optional[Dict[str, ast.AST]] = None
         self._memo: Dict[Tuple[Any, ...], Set[Atom]] = {}
-        self._cuts = 0
+        self._frames: List[Set[Tuple[Any, ...]]] = [set()]   # per computation in progress: the unfinished computations (cycles) its result depends on
         self._nodes: Dict[int, Tuple[ast.AST, List[ast.AST]]] = {}
         self._esc: Dict[Tuple[int, int], bool] = {}
         self._rets: Dict[int, List[ast.AST]] = {}
         self._appish: Dict[int, bool] = {}
+        self._foreign: Dict[Tuple[str, str], Optional[Tuple[pf.Module, ast.AST]]] = {}
         self.obj_mode = False   # True while the OBJECT an expression denotes is wanted (store targets): values that merely flowed into it by mutation do not count
         self.wrappers: Set[int] = set()   # functions a decorator of this module puts around a reader: checked like readers, but they do not make their name a reader name
-        self._loads: Dict[str, int] = {}
-        self._attr_refs: Dict[str, int] = {}
-        for n in ast.walk(m.tree):
-            if isinstance(n, ast.Name) and isinstance(n.ctx, ast.Load):
-                self._loads[n.id] = self._loads.get(n.id, 0) + 1
-            elif isinstance(n, ast.Attribute):
-                self._attr_refs[n.attr] = self._attr_refs.get(n.attr, 0) + 1
-        self.module_defs: Dict[str, ast.AST] = {d.name: d for d in pf._body_defs(m.tree)}
         self._globals: Dict[int, Set[str]] = {}
-        self.global_rebound: Set[str] = set()
-        for q, f in self.funcs:
-            g = {x for n in self.nodes_of(f) if isinstance(n, ast.Global) for x in n.names}
-            self._globals[id(f)] = g
-            self.global_rebound |= {x for x in g if x in pf.assignments(f)}
-        self._mutations: Dict[int, Dict[str, List[ast.expr]]] = {}
-        self.objattr_roots: Set[str] = self._scan_objattr_roots()
+        self._mutations: Dict[int, Dict[str, List[Tuple[ast.AST, Optional[ast.expr], ast.expr]]]] = {}
+        self.objattr_roots: Set[str] = set()
         self.startup: Set[str] = set(STARTUP_FUNCS)
-        for n in ast.walk(m.tree):
-            if isinstance(n, ast.Call) and (pf.dotted(n.func) or '').endswith(('on_startup.append', 'on_cleanup.append', 'on_shutdown.append')) and n.args and isinstance(n.args[0], ast.Name):
-                self.startup.add(n.args[0].id)
+        self.package = '/'.join(m.rel.split('/')[:2]) + '/'
+        self._add_module(m)
         self._build_call_index()
         self._compute_readers()
         self._solve()
+
+    def _add_module(self, m2: pf.Module) -> None:
+        info = _ModInfo(m2)
+        self.mods[m2.rel] = info
+        self._by_tree[id(m2.tree)] = info
+        for q, f in m2.functions():
+            self.funcs.append((q, f))
+            self.qual[id(f)] = q
+            self.mod_of[id(f)] = m2
+            self.by_name.setdefault(f.name, []).append(f)
+            g = {x for n in self.nodes_of(f) if isinstance(n, ast.Global) for x in n.names}
+            self._globals[id(f)] = g
+            info.global_rebound |= {x for x in g if x in pf.assignments(f)}
+        self.objattr_roots |= self._scan_objattr_roots(info)
+        for n in ast.walk(m2.tree):
+            if isinstance(n, ast.Call) and (pf.dotted(n.func) or '').endswith(('on_startup.append', 'on_cleanup.append', 'on_shutdown.append')) and n.args and isinstance(n.args[0], ast.Name):
+                self.startup.add(n.args[0].id)
+
+    def M(self, fn: ast.AST) -> pf.Module:
+        return self.mod_of.get(id(fn), self.m)
+
+    def MI(self, fn: ast.AST) -> _ModInfo:
+        return self.mods[self.M(fn).rel]
+
+    def lineref(self, fn: ast.AST, e: ast.AST) -> Any:
+        m2 = self.M(fn)
+        return e.lineno if m2 is self.m else f'{m2.rel}:{e.lineno}'
+
+    def gname(self, fn: ast.AST, name: str) -> str:
+        """Root name of a module-level name: bare in the module under analysis, qualified in an adopted one."""
+        m2 = self.M(fn)
+        return name if m2 is self.m else f'{m2.rel}:{name}'
+
+    # -- functions of other modules of the repository (helpers imported by name) -------------------------
+    def foreign_def(self, fn: ast.AST, name: str) -> Optional[Tuple[pf.Module, ast.AST]]:
+        return self._import_target(self.M(fn), name, 0)
+
+    def _import_target(self, m2: pf.Module, name: str, depth: int) -> Optional[Tuple[pf.Module, ast.AST]]:
+        key = (m2.rel, name)
+        if key in self._foreign:
+            return self._foreign[key]
+        res: Optional[Tuple[pf.Module, ast.AST]] = None
+        imports = self.mods[m2.rel].imports if m2.rel in self.mods else m2.imports()
+        origin = imports.get(name)
+        if origin and depth <= 2:
+            level = len(origin) - len(origin.lstrip('.'))
+            parts = origin.lstrip('.').split('.')
+            pkg = m2.rel.split('/')[:-1]
+            base: Optional[List[str]] = None
+            if level >= 1 and level - 1 <= len(pkg):
+                base = pkg[:len(pkg) - (level - 1)]
+            elif level == 0 and parts[0] == self.package.split('/')[1]:
+                base = [self.package.split('/')[0]]
+            if base is not None and len(parts) >= 1:
+                sym, modparts = parts[-1], parts[:-1]
+                for cand in ('/'.join(base + modparts) + '.py', '/'.join(base + modparts + ['__init__.py'])):
+                    if modparts and cand.startswith(self.package) and os.path.exists(repo_path(cand)):
+                        try:
+                            m3 = pf.load(cand)
+                        except AnalysisError:
+                            break
+                        d = {x.name: x for x in pf._body_defs(m3.tree)}.get(sym)
+                        res = (m3, d) if d is not None else self._import_target(m3, sym, depth + 1)
+                        break
+        self._foreign[key] = res
+        return res
+
+    def _shadowed(self, fn: FuncDef, name: str) -> bool:
+        return any(name in assignments(s_) or name in _defs_directly_in(s_) for s_ in [fn] + enclosing_funcs(self.M(fn), fn)) or name in self.MI(fn).defs
+
+    def resolve(self, fn: FuncDef, call: ast.Call) -> Optional[FuncDef]:
+        """resolve_callable, plus functions imported by name from a module of the repository that has been adopted."""
+        d = resolve_callable(self.M(fn), fn, call)
+        if d is None and isinstance(call.func, ast.Name) and not self._shadowed(fn, call.func.id):
+            t_ = self.foreign_def(fn, call.func.id)
+            if t_ is not None and t_[0].rel in self.mods and isinstance(t_[1], (ast.FunctionDef, ast.AsyncFunctionDef)):
+                return t_[1]
+        return d
+
+    def _adopt_reachable(self) -> bool:
+        """Adopt the modules of the repository that define functions (or decorators) the status readers call, transitively."""
+        grew = False
+        seen: Set[int] = set()
+        work = [f for q, f in self.funcs if id(f) in self.readers or id(f) in self.wrappers]
+        while work:
+            f = work.pop()
+            if id(f) in seen:
+                continue
+            seen.add(id(f))
+            names = [(c.func.id, c) for c in self.calls_of(f) if isinstance(c.func, ast.Name)]
+            for dec in f.decorator_list:
+                dn = dec.func if isinstance(dec, ast.Call) else dec
+                if isinstance(dn, ast.Name):
+                    names.append((dn.id, None))
+            for nm, c in names:
+                d = resolve_callable(self.M(f), f, c) if c is not None else None
+                if d is None and not self._shadowed(f, nm):
+                    t_ = self.foreign_def(f, nm)
+                    if t_ is not None:
+                        m3, d3 = t_
+                        if m3.rel not in self.mods and len(self.mods) <= self.MAX_ADOPTED:
+                            self._add_module(m3)
+                            grew = True
+                        if m3.rel in self.mods and isinstance(d3, (ast.FunctionDef, ast.AsyncFunctionDef)):
+                            d = d3
+                if d is not None:
+                    work.append(d)
+                    work += [x for x in self.nodes_of(d) if isinstance(x, (ast.FunctionDef, ast.AsyncFunctionDef)) and x is not d]
+            for c in self.calls_of(f):
+                if isinstance(c.func, ast.Attribute):
+                    d = resolve_callable(self.M(f), f, c)
+                    if d is not None:
+                        work.append(d)
+        return grew
 
     def nodes_of(self, fn: ast.AST) -> List[ast.AST]:
         hit = self._nodes.get(id(fn))
@@ -1229,7 +1359,7 @@ class StatusProvenance:
         return [n for n in self.nodes_of(fn) if isinstance(n, ast.Call)]
 
     # -- syntactic pre-scans -------------------------------------------------------------------
-    def _scan_objattr_roots(self) -> Set[str]:
+    def _scan_objattr_roots(self, info: _ModInfo) -> Set[str]:
         """`X.attr` for module-level functions / classes X whose attribute is stored to (or into) somewhere in the module: function
         attributes and class-level containers used as per-process state."""
         out: Set[str] = set()
@@ -1237,11 +1367,11 @@ class StatusProvenance:
         def base(t: ast.AST) -> None:
             cur = t
             while isinstance(cur, (ast.Subscript, ast.Attribute)):
-                if isinstance(cur, ast.Attribute) and isinstance(cur.value, ast.Name) and cur.value.id in self.module_defs:
+                if isinstance(cur, ast.Attribute) and isinstance(cur.value, ast.Name) and cur.value.id in info.defs:
                     out.add(f'{cur.value.id}.{cur.attr}')
                     return
                 cur = cur.value
-        for n in ast.walk(self.m.tree):
+        for n in ast.walk(info.m.tree):
             if isinstance(n, ast.Assign):
                 for t in _flatten_targets(n.targets):
                     base(t)
@@ -1253,8 +1383,8 @@ class StatusProvenance:
 
     def _refs_in(self, scope: ast.AST, name: str) -> Tuple[int, int]:
         """(loads of the identifier, attribute references .name) inside scope."""
-        if scope is self.m.tree:
-            return self._loads.get(name, 0), self._attr_refs.get(name, 0)
+        if id(scope) in self._by_tree:
+            return self._by_tree[id(scope)].loads.get(name, 0), self._by_tree[id(scope)].attr_refs.get(name, 0)
         a = b = 0
         for n in ast.walk(scope):
             if isinstance(n, ast.Name) and n.id == name and isinstance(n.ctx, ast.Load):
@@ -1269,13 +1399,13 @@ class StatusProvenance:
         self.sites: Dict[int, List[Tuple[FuncDef, ast.Call, bool]]] = {}
         for q, g in self.funcs:
             for c in self.calls_of(g):
-                d = resolve_callable(self.m, g, c)
+                d = self.resolve(g, c)
                 if d is not None:
                     self.sites.setdefault(id(d), []).append((g, c, isinstance(c.func, ast.Attribute)))
         self.deco_actuals: Dict[Tuple[int, str], List[FuncDef]] = {}
         self.deco_of: Dict[int, List[FuncDef]] = {}
         for q, f in self.funcs:
-            outer = enclosing_funcs(self.m, f)
+            outer = enclosing_funcs(self.M(f), f)
             for dec in f.decorator_list:
                 target: Optional[FuncDef] = None
                 dn = dec.func if isinstance(dec, ast.Call) else dec
@@ -1286,7 +1416,11 @@ class StatusProvenance:
                     D = _defs_directly_in(scope).get(dn.id)
                     if D is not None:
                         break
-                D = D or _defs_directly_in(self.m.tree).get(dn.id)
+                D = D or _defs_directly_in(self.M(f).tree).get(dn.id)
+                if D is None and not self._shadowed(f, dn.id):
+                    t_ = self.foreign_def(f, dn.id)
+                    if t_ is not None and t_[0].rel in self.mods and isinstance(t_[1], (ast.FunctionDef, ast.AsyncFunctionDef)):
+                        D = t_[1]
                 if D is None:
                     continue
                 if isinstance(dec, ast.Name):
@@ -1310,21 +1444,21 @@ class StatusProvenance:
         hit = self._closed.get(id(fn))
         if hit is not None:
             return hit
-        outer = enclosing_funcs(self.m, fn)
-        cls = enclosing_class(self.m, fn)
-        par = self.m.parents().get(fn)
+        mm = self.M(fn)
+        outer = enclosing_funcs(mm, fn)
+        par = mm.parents().get(fn)
         while par is not None and not isinstance(par, (ast.FunctionDef, ast.AsyncFunctionDef, ast.ClassDef, ast.Module)):
-            par = self.m.parents().get(par)
+            par = mm.parents().get(par)
         sites = self.sites.get(id(fn), [])
         ok = bool(sites) and not fn.decorator_list and not (fn.name.startswith('__') and fn.name.endswith('__'))
         if ok:
             if isinstance(par, ast.ClassDef):
-                ok = fn.name.startswith('_') and self._refs_in(self.m.tree, fn.name)[1] == len(sites) and len(self.by_name.get(fn.name, [])) == 1
+                ok = fn.name.startswith('_') and self._refs_in(mm.tree, fn.name)[1] == len(sites) and len(self.by_name.get(fn.name, [])) == 1
             elif outer:
                 scope = outer[0]
                 ok = self._refs_in(scope, fn.name)[0] == len(sites) and sum(1 for d in pf._body_defs(scope) if getattr(d, 'name', None) == fn.name) == 1
             else:
-                ok = fn.name.startswith('_') and self._refs_in(self.m.tree, fn.name) == (len(sites), 0) and len(self.by_name.get(fn.name, [])) == 1
+                ok = fn.name.startswith('_') and self._refs_in(mm.tree, fn.name) == (len(sites), 0) and len(self.by_name.get(fn.name, [])) == 1
         self._closed[id(fn)] = ok
         return ok
 
@@ -1334,7 +1468,7 @@ class StatusProvenance:
             for c in self.calls_of(f):
                 if (pf.dotted(c.func) or '').split('.')[-1] in self.converters:
                     self.direct.add(id(f))
-        self.readers = set(self.direct)
+        self.readers |= self.direct
         self._close_readers()
 
     def _close_readers(self) -> None:
@@ -1355,35 +1489,25 @@ class StatusProvenance:
             if not any(id(f) in self.readers for f in decorated):
                 continue
             for q, f in self.funcs:
-                if id(f) in self.readers or not (id(f) == tid or any(id(s_) == tid for s_ in enclosing_funcs(self.m, f))):
+                if id(f) in self.readers or not (id(f) == tid or any(id(s_) == tid for s_ in enclosing_funcs(self.M(f), f))):
                     continue
                 if any(isinstance(n, ast.Name) and n.id == pname and isinstance(n.ctx, ast.Load) for n in self.nodes_of(f)) and (id(f) == tid or pname not in assignments(f)):
                     self.wrappers.add(id(f))
         self._memo.clear()
 
     def is_reader_name(self, fn: FuncDef, name: str) -> Optional[FuncDef]:
-        for scope in [fn] + enclosing_funcs(self.m, fn):
+        for scope in [fn] + enclosing_funcs(self.M(fn), fn):
             if name in assignments(scope):
                 return None
             d = _defs_directly_in(scope).get(name)
             if d is not None:
                 return d if id(d) in self.readers else None
-        d = _defs_directly_in(self.m.tree).get(name)
+        d = _defs_directly_in(self.M(fn).tree).get(name)
         return d if d is not None and id(d) in self.readers else None
 
     # -- module-level names -------------------------------------------------------------------
-    def module_names(self) -> Dict[str, ast.AST]:
-        if self._module_names is None:
-            out: Dict[str, ast.AST] = {}
-            for st in self.m.tree.body:
-                if isinstance(st, ast.Assign):
-                    for t in st.targets:
-                        if isinstance(t, ast.Name):
-                            out[t.id] = st.value
-                elif isinstance(st, ast.AnnAssign) and isinstance(st.target, ast.Name) and st.value is not None:
-                    out[st.target.id] = st.value
-            self._module_names = out
-        return self._module_names
+    def module_names(self, fn: Optional[ast.AST] = None) -> Dict[str, ast.AST]:
+        return (self.MI(fn) if fn is not None else self.mods[self.m.rel]).names
 
     @staticmethod
     def _immutable_expr(e: ast.AST) -> bool:
@@ -1467,13 +1591,13 @@ class StatusProvenance:
             return {k}
         if isinstance(sl, ast.Name):
             keys: Set[str] = set()
-            defs = [d for scope in [fn] + enclosing_funcs(self.m, fn) for d in assignments(scope).get(sl.id, [])]
+            defs = [d for scope in [fn] + enclosing_funcs(self.M(fn), fn) for d in assignments(scope).get(sl.id, [])]
             if not defs:
                 return None
             for d in defs:
                 it = d.iter if isinstance(d, (ast.For, ast.AsyncFor, ast.comprehension)) and isinstance(d.target, ast.Name) else None
-                if isinstance(it, ast.Name) and it.id in self.module_names() and it.id not in self.global_rebound:
-                    it = self.module_names()[it.id]
+                if isinstance(it, ast.Name) and it.id in self.module_names(fn) and it.id not in self.MI(fn).global_rebound:
+                    it = self.module_names(fn)[it.id]
                 if not isinstance(it, (ast.Tuple, ast.List, ast.Set)) or not it.elts or not all(pf.const_str(x) is not None for x in it.elts):
                     return None
                 keys |= {pf.const_str(x) for x in it.elts}
@@ -1545,7 +1669,7 @@ class StatusProvenance:
                 return {('apph',)}
             if isinstance(e.value, ast.Name) and e.value.id in ('self', 'cls'):
                 return {('ret', f'{e.value.id}.{e.attr}', False)}
-            if isinstance(e.value, ast.Name) and f'{e.value.id}.{e.attr}' in self.objattr_roots and not any(e.value.id in assignments(s) for s in [fn] + enclosing_funcs(self.m, fn)):
+            if isinstance(e.value, ast.Name) and f'{e.value.id}.{e.attr}' in self.objattr_roots and not any(e.value.id in assignments(s) for s in [fn] + enclosing_funcs(self.M(fn), fn)):
                 return {('ret', f'{e.value.id}.{e.attr}', False)}
             base = P(e.value)
             if ('dbh',) in base:
@@ -1583,7 +1707,7 @@ class StatusProvenance:
         hit = self._esc.get(key)
         if hit is not None:
             return hit
-        chain = [fn] + enclosing_funcs(self.m, fn)
+        chain = [fn] + enclosing_funcs(self.M(fn), fn)
         res = False
         if scope in chain and chain.index(scope) > 0:
             child = chain[chain.index(scope) - 1]
@@ -1606,23 +1730,28 @@ class StatusProvenance:
         if key in self._memo:
             return set(self._memo[key])
         if key in busy or len(busy) > 60:
-            self._cuts += 1
+            # cycle: the value under construction is not known yet; whoever is being computed right now depends on it
+            self._frames[-1].add(key if key in busy else ('depth',))
             return set()
         busy.add(key)
-        cuts0 = self._cuts
+        self._frames.append(set())
         try:
             out = self._name_uncached(fn, name, mode, busy)
         finally:
             busy.discard(key)
-        if self._cuts == cuts0:
+            pending = self._frames.pop()
+        pending.discard(key)   # the cycle through this very name is closed now
+        if not pending:
             self._memo[key] = set(out)
+        else:
+            self._frames[-1] |= pending
         return out
 
     def _name_uncached(self, fn: FuncDef, name: str, mode: str, busy: Set[Tuple[Any, ...]]) -> Set[Atom]:
-        for scope in [fn] + enclosing_funcs(self.m, fn):
+        for scope in [fn] + enclosing_funcs(self.M(fn), fn):
             defs = assignments(scope).get(name)
             if name in self._globals.get(id(scope), ()):
-                out: Set[Atom] = {('ret', name, False)}
+                out: Set[Atom] = {('ret', self.gname(fn, name), False)}
                 for d in defs or []:
                     out |= self._def(scope, name, d, mode, busy)
                 return out
@@ -1641,14 +1770,21 @@ class StatusProvenance:
             d2 = _defs_directly_in(scope).get(name)
             if d2 is not None:
                 return {('fref', d2.name, True)} if id(d2) in self.readers else set()
-        d3 = _defs_directly_in(self.m.tree).get(name)
+        d3 = _defs_directly_in(self.M(fn).tree).get(name)
         if d3 is not None:
             return {('fref', d3.name, True)} if id(d3) in self.readers else set()
-        mv = self.module_names().get(name)
-        if mv is not None or name in self.global_rebound:
-            if name not in self.global_rebound and self._immutable_expr(mv):
+        info = self.MI(fn)
+        mv = info.names.get(name)
+        if mv is not None or name in info.global_rebound:
+            if name not in info.global_rebound and self._immutable_expr(mv):
                 return set()
-            return {('ret', name, False)}
+            return {('ret', self.gname(fn, name), False)}
+        if name in info.imports:
+            t_ = self.foreign_def(fn, name)   # a function / object imported by name from an adopted module of the repository
+            if t_ is not None and t_[0].rel in self.mods:
+                m3, d4 = t_
+                if isinstance(d4, (ast.FunctionDef, ast.AsyncFunctionDef)):
+                    return {('fref', d4.name, True)} if id(d4) in self.readers else set()
         return set()  # imported name / builtin
 
     def _default_of(self, fn: FuncDef, name: str) -> Optional[ast.expr]:
@@ -1675,14 +1811,14 @@ class StatusProvenance:
                 if isinstance(dec, ast.Call) and (pf.dotted(dec.func) or '').split('.')[-1] == 'transaction' and dec.args:
                     params = [a.arg for a in scope.args.posonlyargs + scope.args.args]
                     if params and params[0] == name:
-                        outer = enclosing_funcs(self.m, scope)
+                        outer = enclosing_funcs(self.M(scope), scope)
                         if ('dbh',) in self.prov(outer[0] if outer else scope, dec.args[0], 'exp', busy):
                             return {('dbh',)}
             ann = d.annotation
             if ann is not None and ((pf.dotted(ann) or pf.const_str(ann) or '').split('.')[-1] in DB_TYPES):
                 return {('dbh',)}
             if name in ('self', 'cls') or mode == 'sum':
-                return {('param', name, False)}
+                return {('param', name, False)} | self._default_atoms(scope, name)
             # WHO calls: the parameter is whatever the call sites pass (defaults are added where the call leaves the parameter out)
             out: Set[Atom] = set()
             for f in self.deco_actuals.get((id(scope), name), []):
@@ -1717,18 +1853,22 @@ class StatusProvenance:
         if key in self._memo:
             return set(self._memo[key])
         if key in busy:
-            self._cuts += 1
+            self._frames[-1].add(key)
             return set()
         busy.add(key)
-        cuts0 = self._cuts
+        self._frames.append(set())
         try:
             out: Set[Atom] = set()
             for r in self.returns_of(d):
                 out |= self.prov(d, r.value, 'sum', busy)
         finally:
             busy.discard(key)
-        if self._cuts == cuts0:
+            pending = self._frames.pop()
+        pending.discard(key)
+        if not pending:
             self._memo[key] = set(out)
+        else:
+            self._frames[-1] |= pending
         return out
 
     def _apply(self, fn: FuncDef, d: FuncDef, e: ast.Call, is_method: bool, mode: str, busy: Set[Tuple[Any, ...]]) -> Set[Atom]:
@@ -1781,12 +1921,12 @@ class StatusProvenance:
             recv = P(f.value)
             if ('dbh',) in recv:
                 if f.attr in DB_METHODS:
-                    return {('db', e.lineno, False)}
+                    return {('db', self.lineref(fn, e), False)}
                 return {('dbh',)}  # db.start(), tx.<other>: still the handle
             if f.attr in DB_METHODS and mode == 'sum':
                 ps = [a for a in recv if a[0] == 'param']
                 if ps:
-                    return {('dbif', e.lineno, a[1]) for a in ps} | {a for a in recv if a[0] != 'param'}
+                    return {('dbif', self.lineref(fn, e), a[1]) for a in ps} | {a for a in recv if a[0] != 'param'}
             if ('apph',) in recv:
                 if f.attr in ('get', 'setdefault', '__getitem__', 'pop') and e.args:
                     return self._app_entry(e.args[0]) | {a for a in recv if a[0] == 'ret'}
@@ -1796,7 +1936,7 @@ class StatusProvenance:
                 for d in self._methods_on(sorted(a[1] for a in ret), f.attr):
                     out |= {a for a in self._apply(fn, d, e, True, mode, busy) if a[0] != 'dbh'}
                 return out
-            d = resolve_callable(self.m, fn, e)  # self.method(...)
+            d = self.resolve(fn, e)  # self.method(...)
             if d is not None:
                 out = self._apply(fn, d, e, True, mode, busy)
                 mdec = memo_decorator(d)
@@ -1818,7 +1958,7 @@ class StatusProvenance:
                     if mdec:
                         out.add(('ret', f'results remembered by @{mdec} on {d.name}', True))
             return out
-        d = resolve_callable(self.m, fn, e)
+        d = self.resolve(fn, e)
         if d is not None:
             mdec = memo_decorator(d)
             out = self._apply(fn, d, e, False, mode, busy)
@@ -1844,7 +1984,7 @@ class StatusProvenance:
 
     def _target_roots(self, fn: FuncDef, t: ast.expr) -> Set[str]:
         if isinstance(t, ast.Name):
-            return {t.id} if t.id in self._globals.get(id(fn), ()) else set()
+            return {self.gname(fn, t.id)} if t.id in self._globals.get(id(fn), ()) else set()
         if isinstance(t, ast.Subscript):
             base = {('apph',)} if self.appish(fn, t.value) else self.obj_prov(fn, t.value)
             out = {a[1] for a in base if a[0] == 'ret'}
@@ -1878,8 +2018,8 @@ class StatusProvenance:
                         roots, vals = {f'app[{pf.nsrc(n.args[0])}]'}, [n.args[1]]
                     if roots:
                         self.stores.append(StoreSite(fn, q, n, roots, vals, n.func.attr in STORE_METHODS))
-                elif isinstance(n, ast.Call) and isinstance(n.func, ast.Name) and len(n.args) + len(n.keywords) >= 2 and resolve_callable(self.m, fn, n) is None \
-                        and n.func.id not in self.module_defs and n.func.id not in assignments(fn):
+                elif isinstance(n, ast.Call) and isinstance(n.func, ast.Name) and len(n.args) + len(n.keywords) >= 2 and self.resolve(fn, n) is None \
+                        and n.func.id not in self.MI(fn).defs and n.func.id not in assignments(fn):
                     # a retained container handed, together with other values, to a function defined elsewhere: it may put them in
                     vals = list(n.args) + [k.value for k in n.keywords]
                     conts = [(v, {a[1] for a in self.obj_prov(fn, v) if a[0] == 'ret'}) for v in vals if isinstance(v, (ast.Name, ast.Subscript, ast.Attribute))]
@@ -1891,8 +2031,8 @@ class StatusProvenance:
         if isinstance(e, ast.Await):
             e = e.value
         if isinstance(e, ast.Call) and isinstance(e.func, ast.Name):
-            c = self.module_defs.get(e.func.id)
-            if isinstance(c, ast.ClassDef) and not any(e.func.id in assignments(s) for s in [fn] + enclosing_funcs(self.m, fn)):
+            c = self.MI(fn).defs.get(e.func.id)
+            if isinstance(c, ast.ClassDef) and not any(e.func.id in assignments(s) for s in [fn] + enclosing_funcs(self.M(fn), fn)):
                 return c
         return None
 
@@ -1901,12 +2041,17 @@ class StatusProvenance:
         call sites), the roots that may hold a status, and the functions that answer from such a root (they are readers too)."""
         for _ in range(4):
             before = (len(self.readers), len(self.typed_roots), len(self.maybe_roots), len(self.root_class), len(self.status_lines))
+            if self._adopt_reachable():
+                self._build_call_index()
+                self._compute_readers()
+                self._memo.clear()
             self._collect_stores()
             # module-level objects: X = C(...)
-            for nm, v in self.module_names().items():
-                c = self.module_defs.get(v.func.id) if isinstance(v, ast.Call) and isinstance(v.func, ast.Name) else None
-                if isinstance(c, ast.ClassDef):
-                    self.root_class.setdefault(nm, c)
+            for info in list(self.mods.values()):
+                for nm, v in info.names.items():
+                    c = info.defs.get(v.func.id) if isinstance(v, ast.Call) and isinstance(v.func, ast.Name) else None
+                    if isinstance(c, ast.ClassDef):
+                        self.root_class.setdefault(nm if info.m is self.m else f'{info.m.rel}:{nm}', c)
             n_rc = len(self.root_class)
             for s in self.stores:
                 if isinstance(s.node, (ast.Assign, ast.AnnAssign)):
@@ -1931,6 +2076,12 @@ class StatusProvenance:
                     self._memo.clear()
                     self._closed.clear()
                     self._collect_stores()
+            # a module-level object built around a reader: _cached_get_batch = alru_cache(maxsize=..)(_get_batch), CACHE = Cache(_get_batch, ..)
+            for info in list(self.mods.values()):
+                for nm, v in info.names.items():
+                    if isinstance(v, ast.Call) and any(isinstance(x, ast.Name) and isinstance(x.ctx, ast.Load) and isinstance(info.defs.get(x.id), (ast.FunctionDef, ast.AsyncFunctionDef))
+                                                       and id(info.defs[x.id]) in self.readers for x in ast.walk(v)):
+                        self.typed_roots.add(nm if info.m is self.m else f'{info.m.rel}:{nm}')
             # rows that feed a converter are status records
             for q, fn in self.funcs:
                 for c in self.calls_of(fn):
@@ -1967,7 +2118,7 @@ class StatusProvenance:
                     if id(f) in self.readers:
                         continue
                     for r in self.nodes_of(f):
-                        if isinstance(r, (ast.Return, ast.Yield)) and r.value is not None and any(a[0] == 'ret' and self.is_typed(a) for a in self.prov(f, r.value)):
+                        if isinstance(r, (ast.Return, ast.Yield)) and r.value is not None and any(a[0] == 'ret' and self.is_typed(a) for a in self.prov(f, r.value, 'sum')):
                             self.readers.add(id(f))
                             self.direct.add(id(f))
                             grew = True
@@ -1988,6 +2139,7 @@ class StatusProvenance:
 class StatusFinding:
     def __init__(self, status: str, construct: str, message: str, line: int):
         self.status, self.construct, self.message, self.line = status, construct, message, line
+        self.path: Optional[str] = None   # file of the construct when it is not the module that was asked about
 
 
 STALE = ('other front-end replicas (batch/deployment.yaml runs several) commit updates, cancel or complete jobs without this process seeing it, and a read that was in flight when the entry was dropped puts the old answer back: '
@@ -2007,7 +2159,7 @@ def _validated_by_fresh_read(sp: StatusProvenance, fn: FuncDef, node: ast.AST) -
     """Is the statement control-dependent on a test that looks at a database row read by this invocation (a remembered answer that is
     re-validated against the database before it is served)?  Only definitions that can reach the test count (textually before it, or
     anywhere when the test sits in a loop): `x = memo.get(k); if x is not None: return x; ...; x = convert(row)` is not a validation."""
-    par = sp.m.parents()
+    par = sp.M(fn).parents()
     cur = node
     p = par.get(cur)
     chain = []
@@ -2016,19 +2168,40 @@ def _validated_by_fresh_read(sp: StatusProvenance, fn: FuncDef, node: ast.AST) -
         cur = p
         p = par.get(cur)
     in_loop = any(isinstance(x, (ast.For, ast.AsyncFor, ast.While)) for x, _ in chain)
+
+    def reach(e: ast.AST, line: int, depth: int) -> Set[Atom]:
+        """atoms of e as evaluated at `line`: names are followed through the definitions that precede that line only"""
+        if depth > 8:
+            return set()
+        if isinstance(e, ast.Await):
+            return reach(e.value, line, depth)
+        if isinstance(e, ast.Call):
+            return sp.prov(fn, e)
+        if isinstance(e, ast.Name):
+            defs = assignments(fn).get(e.id)
+            if not defs:
+                return sp.prov(fn, e)
+            out: Set[Atom] = set()
+            for d in defs:
+                ln = getattr(d, 'lineno', None)
+                if isinstance(d, ast.arg):
+                    out |= sp._def(fn, e.id, d, 'exp', set())
+                    continue
+                if not in_loop and ln is not None and ln >= line:
+                    continue
+                val = d if isinstance(d, ast.expr) else (d.value if isinstance(d, (ast.Assign, ast.AugAssign)) else (d.iter if isinstance(d, (ast.For, ast.AsyncFor, ast.comprehension)) else
+                                                         (d.context_expr if isinstance(d, ast.withitem) else None)))
+                out |= reach(val, ln or line, depth + 1) if val is not None else sp._def(fn, e.id, d, 'exp', set())
+            return out
+        out = set()
+        for c in ast.iter_child_nodes(e):
+            if isinstance(c, ast.expr):
+                out |= reach(c, line, depth)
+        return out
     for p, cur in chain:
         if isinstance(p, (ast.If, ast.While, ast.IfExp)) and not any(cur is x for x in ast.walk(p.test)):
-            for n in ast.walk(p.test):
-                atoms: Set[Atom] = set()
-                if isinstance(n, ast.Call):
-                    atoms = sp.prov(fn, n)
-                elif isinstance(n, ast.Name) and isinstance(n.ctx, ast.Load):
-                    for d in assignments(fn).get(n.id, []):
-                        if isinstance(d, ast.arg) or (not in_loop and getattr(d, 'lineno', 0) >= p.test.lineno):
-                            continue
-                        atoms |= sp._def(fn, n.id, d, 'exp', set())
-                if any(a[0] in ('db', 'dbf') for a in atoms):
-                    return True
+            if any(a[0] in ('db', 'dbf') for a in reach(p.test, p.test.lineno, 0)):
+                return True
     return False
 
 
@@ -2039,22 +2212,24 @@ def check_status_provenance(m: pf.Module, returns: bool = True) -> Tuple[List[St
     for q, fn in sp.funcs:
         if id(fn) not in sp.readers and id(fn) not in sp.wrappers:
             continue
+        rel = sp.M(fn).rel
+        n_out = len(out)
         mdec = memo_decorator(fn)
         if mdec:
-            out.append(StatusFinding('bad', f'{m.rel}::{q}::memoised', f'{q}, which returns batch / job-group status, is wrapped by @{mdec}: answers are served from a per-process memo instead of the database; {stale}', fn.lineno))
+            out.append(StatusFinding('bad', f'{rel}::{q}::memoised', f'{q}, which returns batch / job-group status, is wrapped by @{mdec}: answers are served from a per-process memo instead of the database; {stale}', fn.lineno))
         # (a) what the converters are fed with
         for c in sp.calls_of(fn):
             cname = (pf.dotted(c.func) or '').split('.')[-1]
             if cname in sp.converters and c.args:
                 atoms = sp.prov(fn, c.args[0])
-                cons = f'{m.rel}::{q}::record given to {cname}'
+                cons = f'{rel}::{q}::record given to {cname}'
                 ret = sorted(a[1] for a in atoms if a[0] == 'ret')
                 if ret:
                     out.append(StatusFinding('bad', cons, f'the record passed to {cname} can come from {ret[0]}{_where_stored(sp, ret[0])}, state that outlives the request, instead of a query executed by this request: {stale}', c.lineno))
                 elif any(a[0] in ('unk', 'param', 'reader', 'apph') for a in atoms) or not any(a[0] == 'db' for a in atoms):
                     out.append(StatusFinding('undecided', cons, f'where the record passed to {cname} comes from is not decided ({sorted(str(a[:2]) for a in atoms)[:3]})', c.lineno))
                 else:
-                    out.append(StatusFinding('ok', cons, f'query result of this invocation (line(s) {sorted(a[1] for a in atoms if a[0] == "db")})', c.lineno))
+                    out.append(StatusFinding('ok', cons, f'query result of this invocation (line(s) {sorted((a[1] for a in atoms if a[0] == "db"), key=str)})', c.lineno))
         if not returns:
             continue
         # (c) what the reader returns
@@ -2064,7 +2239,8 @@ def check_status_provenance(m: pf.Module, returns: bool = True) -> Tuple[List[St
         for r in sp.returns_of(fn):
             if True:
                 n_ret += 1
-                atoms = sp.prov(fn, r.value)
+                # the function's OWN reads (its parameters symbolic): what a caller passes in is the caller's business, and comes back to it through the summary
+                atoms = sp.prov(fn, r.value, 'sum')
                 hits = sorted(a[1] for a in atoms if a[0] == 'ret' and sp.is_typed(a))
                 if hits and bad_ret is None:
                     bad_ret = (r, hits[0])
@@ -2073,12 +2249,13 @@ def check_status_provenance(m: pf.Module, returns: bool = True) -> Tuple[List[St
                     und_ret = (r, f'it is read back from {soft[0]}{_where_stored(sp, soft[0])}, state that outlives the request and is written while requests are served; whether a status can be in it is not decided')
                 if ('apph',) in atoms and und_ret is None:
                     und_ret = (r, 'the application object itself is handed to code outside this module, whose answer is returned: whether that code answers from per-process state is not decided')
-        cons = f'{m.rel}::{q}::returned status'
+        cons = f'{rel}::{q}::returned status'
         if bad_ret is None:
             # a field of the status object overwritten from an object that other invocations fill from the database
             for name, muts in sp.mutations(fn).items():
                 nm = ast.Name(id=name, ctx=ast.Load())
-                if not any(sp.is_typed(a) for a in sp.obj_prov(fn, nm)):
+                obj = sp.obj_prov(fn, nm) if name in assignments(fn) else set()
+                if not any(sp.is_typed(a) for a in obj) or any(a[0] == 'ret' for a in obj):
                     continue
                 for st, t, v in muts:
                     if t is not None and sp.off_topic(fn, t):
@@ -2092,7 +2269,8 @@ def check_status_provenance(m: pf.Module, returns: bool = True) -> Tuple[List[St
                                                         'comparison proves the remembered status current (n_jobs, state, time_completed all compared) is not decided', r.lineno))
         elif bad_ret is not None:
             r, root = bad_ret
-            out.append(StatusFinding('bad', cons, f'`{pf.nsrc(r)[:80]}` answers with a status that was read back from {root}{_where_stored(sp, root)} - state that outlives the request and into which this module stores status dicts - '
+            verb = 'answers with' if isinstance(r, (ast.Return, ast.Yield)) else 'overwrites completion fields of the reported status with'
+            out.append(StatusFinding('bad', cons, f'`{pf.nsrc(r)[:80]}` {verb} a status that was read back from {root}{_where_stored(sp, root)} - state that outlives the request and into which this module stores status dicts - '
                                                   f'not from a query executed by this request (served from a process-local memo): {stale}', r.lineno))
         elif und_ret is not None:
             r, why = und_ret
@@ -2101,7 +2279,7 @@ def check_status_provenance(m: pf.Module, returns: bool = True) -> Tuple[List[St
             out.append(StatusFinding('ok', cons, f'{n_ret} return(s): no status read back from retained state', fn.lineno))
         elif id(fn) in sp.direct:
             # (d) a reporter that returns nothing SENDS the status (callback payloads): what it hands to other code
-            cons = f'{m.rel}::{q}::status sent'
+            cons = f'{rel}::{q}::status sent'
             sent = None
             n_sent = 0
             for c in sp.calls_of(fn):
@@ -2119,6 +2297,8 @@ def check_status_provenance(m: pf.Module, returns: bool = True) -> Tuple[List[St
                 out.append(StatusFinding('bad', cons, f'`{pf.nsrc(c)[:80]}` sends a status that was read back from {root}{_where_stored(sp, root)} - state that outlives the invocation - not from a query executed by it: {stale}', c.lineno))
             elif n_sent:
                 out.append(StatusFinding('ok', cons, f'{n_sent} argument(s) carrying a status: none read back from retained state', fn.lineno))
+        for f_ in out[n_out:]:
+            f_.path = sp.M(fn).path
     return out, sp
 
 
